@@ -142,6 +142,22 @@ func battery4(codes []byte) []req4 {
 						}
 					}
 				}
+				if !o116 {
+					// vendor class and client architecture independently of each other: a class
+					// that announces an architecture without option 93, option 93 empty or of
+					// odd length, classes of other boot loaders
+					for _, vc := range []string{"PXEClient", "PXEClient:Arch:00007:UNDI:003016", "HTTPClient", "HTTPClient:Arch:00016:UNDI:003001", "MSFT 5.0", "x"} {
+						for ai, arch := range [][]byte{nil, {}, {7}, {0, 16}, {0, 7, 0, 16}, {0, 7, 9}} {
+							q := p
+							q.Opts = append([]pkt.Opt4{}, p.Opts...)
+							q.Opts = append(q.Opts, pkt.Opt4{Code: 60, Data: []byte(vc)})
+							if arch != nil {
+								q.Opts = append(q.Opts, pkt.Opt4{Code: 93, Data: arch})
+							}
+							out = append(out, req4{q.Bytes(), fmt.Sprintf("type=%d prl=%s class=%q arch-variant=%d", mt, names[pi], vc, ai), false, false, mt == 3})
+						}
+					}
+				}
 			}
 		}
 	}
@@ -582,7 +598,8 @@ func run4(r *ev.Run, id string, v Vec, h handler.Handler4) {
 				r.Violate(fmt.Sprintf("C17/%s/option%d-to-unentitled", v.Plugin, code), fmt.Sprintf("option %d sent to a client not entitled to it (%s)", code, rq.desc), c)
 			case has && n == 0:
 				r.Violate(fmt.Sprintf("C17/%s/option%d-missing", v.Plugin, code), fmt.Sprintf("option %d missing (%s)", code, rq.desc), c)
-			case has && n != 1:
+			case has && n != 1 && !(len(want) > 255 && n == (len(want)+254)/255):
+				// (a value longer than 255 octets is split over consecutive instances, RFC 3396)
 				r.Violate(fmt.Sprintf("C17/%s/option%d-repeated", v.Plugin, code), fmt.Sprintf("option %d present %d times (%s)", code, n, rq.desc), c)
 			case has:
 				ok := bytes.Equal(got, want)
@@ -972,6 +989,24 @@ func validVectors(thorough bool) []Vec {
 		add("searchdomains", 4, a...)
 		add("searchdomains", 6, a...)
 	}
+	// lists whose encoding is longer than one option instance can hold (255 octets)
+	var many []string
+	for i := 0; i < 14; i++ {
+		many = append(many, fmt.Sprintf("department-%02d.example.org", i))
+	}
+	l63 := strings.Repeat("a", 63)
+	for _, a := range [][]string{many, {l63 + "." + l63 + ".x", l63 + "." + strings.Repeat("b", 63) + ".y"}, many[:9], many[:10]} {
+		add("searchdomains", 4, a...)
+		add("searchdomains", 6, a...)
+	}
+	var manyDNS, manyRoutes []string
+	for i := 0; i < 70; i++ {
+		manyDNS = append(manyDNS, fmt.Sprintf("10.9.%d.1", i))
+		manyRoutes = append(manyRoutes, fmt.Sprintf("10.%d.0.0/16,192.0.2.%d", i, i+1))
+	}
+	add("dns", 4, manyDNS...)
+	add("router", 4, manyDNS...)
+	add("staticroute", 4, manyRoutes...)
 	for _, a := range [][]string{{"10.0.0.0/8,192.0.2.1"}, {"0.0.0.0/0,192.0.2.1"}, {"128.0.0.0/1,10.0.0.1", "10.20.0.0/25,10.0.0.2"}, {"192.0.2.7/32,10.0.0.3", "10.0.0.0/8,10.0.0.1", "172.16.0.0/12,10.0.0.9"}} {
 		add("staticroute", 4, a...)
 	}
